@@ -39,6 +39,10 @@ CHECKS = {
  'C16': dict(engine='B+A', technique='symbolic execution (z3, IEEE-UF + bit-vectors) of the real Morton key and Cartesian index/wrap/wall-intersection code; cbmc for the long-index bijection and for the bit-precise top-wall index query',
    text='Partial: Morton key == bit interleave for symbolic positions; periodic wrap / outside test / wall-intersection bookkeeping on symbolic indices; long-index bijection; and the bit-precise question whether a position in the half-open box can get cell index n (answer: yes - known finding D8, replayed on the real grid).',
    note='Outside: AMR refinement histories, Voronoi, path conservation of the legacy traversal as numbers, search structures; upper index bound as an unsat FP fact (no back end finished).', ref='DESIGN.md section 5 C16'),
+
+ 'C08': dict(engine='A', technique='bounded model checking (cbmc/SAT) of the real container operations sequentialised by the translator (A-seq): each thread body is a step machine yielding before every atomic instruction, the schedule is a nondeterministic input, pre-state an arbitrary valid container state',
+   text='All interleavings of the atomic operations of two (thorough: three) concurrent real operations - pool get/get, get/free, queue get/get, get/try_get, add/get, lock_dependency pairs, atomic counter/max/lock pairs - from arbitrary valid states at small size, plus sequential inductive twins with the full state space; the solver covers every schedule within the step bound.',
+   note='Bounds: 2-3 threads, one operation each, pools of 3 slots, queues of <=1 entry in the two-thread races (<=3 in the sequential twins), <= 12-30 scheduled steps (longer spins assumed away). Sequentially consistent atomics; plain accesses grouped with the preceding atomic step. Outside: >3 threads, liveness, relaxed memory.', ref='DESIGN.md section 5 C08'),
 }
 NA = {
 }
